@@ -286,6 +286,32 @@ package proto
 //@   ensures replaced: index < old(len(st.votes)) && headSlot / st.spec.SLOTS_PER_EPOCH > old(st.votes[index].NextTargetEpoch) ==> st.votes[index].Next == NodeRef(headSlot, blockRoot) && st.votes[index].NextTargetEpoch == headSlot / st.spec.SLOTS_PER_EPOCH && st.votes[index].Current == old(st.votes[index].Current) && st.votes[index].CurrentTargetEpoch == old(st.votes[index].CurrentTargetEpoch) && st.changed
 //@   ensures kept: index < old(len(st.votes)) && headSlot / st.spec.SLOTS_PER_EPOCH <= old(st.votes[index].NextTargetEpoch) && headSlot / st.spec.SLOTS_PER_EPOCH != 0 ==> st.votes[index] == old(st.votes[index]) && unchanged(st.changed)
 
+// ComputeDeltas: for every validator whose vote moves (never counted yet, a newer target epoch, or a changed balance),
+// the old balance leaves the node of its current vote and the new balance arrives at the node of its next vote - each
+// only if that node is in the index map; with the next node known the vote becomes current. The deltas are the
+// accumulated (int64-wrapping) sums per node index; validators beyond a balance list count with balance 0.
+//@ sort GweiS = []Gwei
+//@ sort NodeRefT = NodeRef
+//@ define swadd(a int, b int) int = ite(a + b >= 9223372036854775808, a + b - 18446744073709551616, ite(a + b < 0 - 9223372036854775808, a + b + 18446744073709551616, a + b))
+//@ define cd_bal(b GweiS, i int) int = ite(i < len(b), b[i], 0)
+//@ define cd_moves(v VoteT, ob int, nb int) bool = !(v.Current == NodeRef(0, Root(0, 0, 0, 0, 0, 0, 0, 0, 0, 0, 0, 0, 0, 0, 0, 0, 0, 0, 0, 0, 0, 0, 0, 0, 0, 0, 0, 0, 0, 0, 0, 0)) && v.Next == NodeRef(0, Root(0, 0, 0, 0, 0, 0, 0, 0, 0, 0, 0, 0, 0, 0, 0, 0, 0, 0, 0, 0, 0, 0, 0, 0, 0, 0, 0, 0, 0, 0, 0, 0))) && (v.Current == NodeRef(0, Root(0, 0, 0, 0, 0, 0, 0, 0, 0, 0, 0, 0, 0, 0, 0, 0, 0, 0, 0, 0, 0, 0, 0, 0, 0, 0, 0, 0, 0, 0, 0, 0)) || v.CurrentTargetEpoch < v.NextTargetEpoch || ob != nb)
+//@ define cd_step(acc int, v VoteT, idx Indices, ob int, nb int, n int) int = ite(cd_moves(v, ob, nb), ite(has(idx, v.Next) && idx[v.Next] == n, swadd(ite(has(idx, v.Current) && idx[v.Current] == n, swadd(acc, 0 - ob), acc), nb), ite(has(idx, v.Current) && idx[v.Current] == n, swadd(acc, 0 - ob), acc)), acc)
+//@ defrec cd_acc(vs Votes, idx Indices, ob GweiS, nb GweiS, n int, i int) int = ite(i <= 0, 0, cd_step(cd_acc(vs, idx, ob, nb, n, i - 1), vs[i - 1], idx, cd_bal(ob, i - 1), cd_bal(nb, i - 1), n))
+//@ func (st *ProtoVoteStore) ComputeDeltas(indices, oldBalances, newBalances) deltas
+//@   property C09
+//@   requires st != nil && len(st.votes) < 4611686018427387904 && len(indices) < 4611686018427387904
+//@   requires in_range: forall r NodeRefT :: {has(indices, r)} has(indices, r) ==> indices[r] < len(indices)
+//@   requires balances: (forall k :: {oldBalances[k]} 0 <= k && k < len(oldBalances) ==> oldBalances[k] < 9223372036854775808) && (forall k :: {newBalances[k]} 0 <= k && k < len(newBalances) ==> newBalances[k] < 9223372036854775808)
+//@   assigns st.votes, st.changed
+//@   ensures len(deltas) == len(indices) && !st.changed && len(st.votes) == old(len(st.votes))
+//@   ensures sums: forall n :: {deltas[n]} 0 <= n && n < len(deltas) ==> deltas[n] == cd_acc(old(st.votes), indices, oldBalances, newBalances, n, len(st.votes))
+//@   ensures moved: forall k :: {st.votes[k]} 0 <= k && k < len(st.votes) ==> st.votes[k].Next == old(st.votes[k].Next) && st.votes[k].NextTargetEpoch == old(st.votes[k].NextTargetEpoch) && (cd_moves(old(st.votes[k]), cd_bal(oldBalances, k), cd_bal(newBalances, k)) && has(indices, old(st.votes[k].Next)) ==> st.votes[k].Current == old(st.votes[k].Next) && st.votes[k].CurrentTargetEpoch == old(st.votes[k].NextTargetEpoch)) && (!(cd_moves(old(st.votes[k]), cd_bal(oldBalances, k), cd_bal(newBalances, k)) && has(indices, old(st.votes[k].Next))) ==> st.votes[k].Current == old(st.votes[k].Current) && st.votes[k].CurrentTargetEpoch == old(st.votes[k].CurrentTargetEpoch))
+//@   loop 1
+//@     invariant 0 <= i && i <= len(st.votes) && len(st.votes) == old(len(st.votes)) && len(deltas) == len(indices)
+//@     invariant forall n :: {deltas[n]} 0 <= n && n < len(deltas) ==> deltas[n] == cd_acc(old(st.votes), indices, oldBalances, newBalances, n, i)
+//@     invariant forall k :: {st.votes[k]} i <= k && k < len(st.votes) ==> st.votes[k] == old(st.votes[k])
+//@     invariant forall k :: {st.votes[k]} 0 <= k && k < i ==> st.votes[k].Next == old(st.votes[k].Next) && st.votes[k].NextTargetEpoch == old(st.votes[k].NextTargetEpoch) && (cd_moves(old(st.votes[k]), cd_bal(oldBalances, k), cd_bal(newBalances, k)) && has(indices, old(st.votes[k].Next)) ==> st.votes[k].Current == old(st.votes[k].Next) && st.votes[k].CurrentTargetEpoch == old(st.votes[k].NextTargetEpoch)) && (!(cd_moves(old(st.votes[k]), cd_bal(oldBalances, k), cd_bal(newBalances, k)) && has(indices, old(st.votes[k].Next))) ==> st.votes[k].Current == old(st.votes[k].Current) && st.votes[k].CurrentTargetEpoch == old(st.votes[k].CurrentTargetEpoch))
+
 //@ func (st *ProtoVoteStore) HasChanges() r
 //@   property C09
 //@   requires st != nil
